@@ -58,6 +58,15 @@ type ReplayFile struct {
 // StopExploring lets a worlds package end the exploration early (see Result.Stopped).
 var StopExploring func() bool
 
+// capDeadline is the wall-clock cap of the exploring job (unix seconds, 0 = none).
+var capDeadline int64
+
+// CapReached tells a scenario that enumerates many faults of one big file that the wall-clock
+// cap of the batch has passed: it should stop enumerating (what it has checked so far counts,
+// nothing is reported for the rest). Only how much is explored depends on this clock, never a
+// verdict.
+func CapReached() bool { return capDeadline != 0 && time.Now().Unix() >= capDeadline }
+
 // RunSeed derives the seed of run i from VERIF_SEED.
 func RunSeed(seed uint64, i int64) uint64 { return Mix(Mix(seed, 0x51ed), uint64(i)) }
 
@@ -214,6 +223,8 @@ func WorkerMain(t *testing.T, worlds map[string]World, selftest func() error) {
 		maxFound = 4
 	}
 	seen := map[string]bool{}
+	capDeadline = job.Deadline
+	defer func() { capDeadline = 0 }()
 	for i := job.From; i < job.To; i += max64(job.Stride, 1) {
 		if job.Deadline != 0 && time.Now().Unix() >= job.Deadline {
 			res.CapHit = true
